@@ -131,6 +131,8 @@ def initDoms (vars : List VarDecl) (hints : List (Nat × Int)) : Doms :=
 /-- `_solve_dfs` (without the SAT fallback): the list of solutions found, `[]` = INFEASIBLE -/
 def dfsSolve (repaired : Bool) (M : Model) (hints : List (Nat × Int)) (limit : Nat) : List Asg :=
   let D := initDoms M.vars hints
+  -- repaired: a variable with an empty domain (lb > ub) has no value
+  if repaired && D.any List.isEmpty then [] else
   match propagate repaired M.cons (totalSize D + 1) D with
   | none => []
   | some D' => (backtrack repaired M.cons limit (totalSize D' + 1) D' ⟨[], false⟩).sols
